@@ -101,6 +101,11 @@ class Anchors:
                 self.step = n['callee']
         if self.step is None:
             raise AnalysisBroken('worker entry does not call a virtual cipher step')
+        # live counter: static integer member of the monitor class
+        self.live = None
+        for g in prog.globals.values():
+            if g['q'].startswith(self.Mq + '::') and g.get('staticmember') and prog.type(g['t']).get('k') == 'int' and not g.get('const'):
+                self.live = 'G:' + g['q']
         # chunk constants
         self.consts = {}
         for g in prog.globals.values():
@@ -141,6 +146,8 @@ def initial_state(A, role, ispadding):
     st.sym['turn0'] = (0, 15)
     st.mem[(BG, (A.Gq + '::turn',))] = sym('turn0')
     st.comps['lockset'] = frozenset()
+    if A.live:
+        st.mem[(A.live, ())] = sym(TSYM)
     return st
 
 
@@ -222,6 +229,33 @@ class RoleListener:
             field = next((x for x in loc[1][1:] if isinstance(x, str)), '?')
             fn = self.cur_fn(I)
             self.b_written.setdefault(field, set()).add(fn['id'] if fn else '?')
+        if self.A.live and loc == (self.A.live, ()):
+            fn = self.cur_fn(I)
+            old = I.load(st, loc)
+            delta = add(val, old, st.sym, -1) if is_int(val) and is_int(old) and val != TOP and old != TOP else TOP
+            # the operation itself says more than the (possibly wrapped / widened) values
+            if node is not None and node.get('k') == 'UnaryOperator' and node.get('op') in ('++', '--'):
+                delta = C(1 if node['op'] == '++' else -1)
+            elif node is not None and node.get('k') == 'CompoundAssignOperator' and node.get('op') in ('+=', '-=') and 'cv' in node.get('rhs', {}):
+                delta = C(node['rhs']['cv'] if node['op'] == '+=' else -node['rhs']['cv'])
+            incs = st.comps.get('cs_dec', 0)
+            in_mon = fn is not None and fn.get('rec') == self.A.Mq
+            if fn is not None and fn.get('ctor') and in_mon:
+                ok = delta == C(1)
+                what = 'constructor adds %s' % show(delta)
+            else:
+                held = any(m[1] and m[1][-1] == self.A.mutex for m in models.lockset(st))
+                ok = in_mon and held and delta == C(-1)
+                what = 'changed by %s %s the monitor mutex' % (show(delta), 'under' if held else 'WITHOUT')
+                st.comps['cs_dec'] = incs + 1
+            if not self.quiet:
+                self.rec.ob('R04.d', 'R04.d@%s::live-counter-update' % fkey(fn), ok, nloc(node), 'live counter %s' % what)
+        if self.is_state(loc) and not (self.cur_fn(I) or {}).get('ctor'):
+            ns = setof(val)
+            if ns is not None and ns == {self.A.enum['INV']}:
+                st.comps['cs_inv'] = st.comps.get('cs_inv', 0) + 1
+            elif ns is None or self.A.enum['INV'] in ns:
+                st.comps['cs_inv'] = -100
         self.buffer_access(I, st, loc, node, True)
 
     def on_preload(self, I, st, loc, node):
@@ -277,6 +311,11 @@ class RoleListener:
     def on_unlock(self, I, st, node, mutex):
         if not mutex[1] or mutex[1][-1] != self.A.mutex:
             return
+        if self.A.live:
+            d, v = st.comps.pop('cs_dec', 0), st.comps.pop('cs_inv', 0)
+            if (d or v) and not self.quiet:
+                self.rec.ob('R04.d', 'R04.d@%s::live-counter-tracks-INV' % fkey(self.cur_fn(I)), d == v, nloc(node),
+                            'critical section: token set INV %s time(s), live counter decremented %s time(s)' % (v if v >= 0 else 'maybe', d))
         mon = (mutex[0], mutex[1][:-1])
         sl = (mon[0], mon[1] + (self.A.state,))
         v = I.load(st, sl)
@@ -313,6 +352,21 @@ class RoleListener:
 
     def on_lock(self, I, st, node, mutex):
         pass
+
+    def _fileop(self, I, st, node, what, root):
+        if self.role == 'worker' and not self.quiet:
+            self.rec.ob('S-ROLE', 'S-ROLE@%s::worker-file-io' % fkey(self.cur_fn(I)), False, nloc(node),
+                        'worker thread performs %s on stream %s: file order is no longer decided by one thread' % (what, root))
+        self.fileops = getattr(self, 'fileops', 0) + 1
+
+    def on_fread(self, I, st, node, root, pos, size, dst, got):
+        self._fileop(I, st, node, 'fread', root)
+
+    def on_fwrite(self, I, st, node, root, pos, size, src, fval):
+        self._fileop(I, st, node, 'fwrite', root)
+
+    def on_fseek(self, I, st, node, root, off, whence):
+        self._fileop(I, st, node, 'fseek', root)
 
     def on_call(self, I, st, node, q, callee, this, args, argnodes, fr):
         if callee.get('m') == self.A.step.get('m'):
@@ -498,6 +552,13 @@ class PipelineAnalysis:
         st = initial_state(A, 'io', ispadding)
         res = I.run(A.io, st, this=P(BG, ()), args=[('opaque', 'printload')])
         rec.saw(I)
+        if A.live and not quiet:
+            for s2, _ in res:
+                lv = I.load(s2, (A.live, ()))
+                rec.ob('R04.c', 'R04.c@%s::loop-ends-only-when-all-INV' % fkey(A.io), is_int(lv) and lv != TOP and compare('==', lv, C(0), s2.sym) is True, '%s:%s' % (A.io['file'], A.io['line']),
+                       '%s: pipeline loop exits with live counter %s (must be 0: every buffer INV, every worker released)' % (
+                           'encrypt' if ispadding else 'decrypt', show(lv)))
+            rec.count('R04.c io exits ' + ('enc' if ispadding else 'dec'), len(res), 1)
         return rl, chk, I, res
 
     def analyse(self):
@@ -735,6 +796,27 @@ class ChunkRules:
         okroot = root == 'fout'
         self.rec.ob('R03.e', 'R03.e@%s::export-to-output' % fkey(fr.fn), okroot, nloc(node), 'chunk exported to stream %s' % (root,))
 
+    def on_prestore(self, I, st, loc, val, node):
+        # R04.e: READY only after a non-NODATA load in this turn; INV otherwise
+        if loc is None or not loc[1] or loc[1][-1] != self.A.state:
+            return
+        fn = I.frames[-1].fn if I.frames else None
+        if fn is not None and fn.get('ctor'):
+            return
+        ns = setof(val)
+        last = st.comps.pop('lastload', None)
+        E = self.A.enum
+        if ns is not None and ns == {E['READY']}:
+            ok = last is not None and last <= {'FULL', 'FINAL'}
+            why = 'token set READY after load result %s' % (sorted(last) if last else 'none (no load in this turn)')
+        elif ns is not None and ns == {E['INV']}:
+            ok = last is None or last <= {'NODATA'}
+            why = 'token set INV after load result %s' % (sorted(last) if last else 'none')
+        else:
+            return
+        self.rec.ob('R04.e', 'R04.e@%s::token-follows-load-result' % fkey(self.A.io), ok, nloc(node), '%s: %s' % (self.mode, why),
+                    path=[str(x) for x in st.trace[-8:]])
+
     def on_preload(self, I, st, loc, node):
         # b[now-1] with now == 0: index underflow
         if loc is None or loc[0] != BUFS:
@@ -754,6 +836,15 @@ class ChunkRules:
         rt = I.prog.type(f['ret'])
         if rt.get('k') != 'enum':
             return
+        # R04.e: after the first load that is not FULL no further load may happen
+        nmx = {v: k for k, v in I.prog.enums[rt['enum']]['consts'].items()}
+        hv = setof(val)
+        was_ended = st.comps.get('ended', False)
+        self.rec.ob('R04.e', 'R04.e@%s::no-load-after-end' % fkey(fr.fn if fr.fn else f), not was_ended, nloc(node),
+                    'chunk load %s the input was reported exhausted' % ('after' if was_ended else 'before'))
+        if hv is None or hv != {I.prog.enums[rt['enum']]['consts']['FULL']}:
+            st.comps['ended'] = True
+        st.comps['lastload'] = frozenset(nmx.get(x, str(x)) for x in hv) if hv is not None else frozenset(['?'])
         # R01.c end-of-body table
         self.loads += 1
         en = I.prog.enums[rt['enum']]['consts']
